@@ -1,4 +1,5 @@
 INIT Init
 NEXT Next
+CONSTANT LateRegistration = FALSE
 CONSTRAINT EmitOnce
 CHECK_DEADLOCK FALSE
